@@ -2228,9 +2228,13 @@ func (db *DatabaseCollectionWithUser) resolveDocMerge(ctx context.Context, local
 func (db *DatabaseCollectionWithUser) resolveRemoteWinsHLV(ctx context.Context, localDoc *Document, remoteDoc *Document) (*HybridLogicalVector, error) {
 	// Tombstone the local revision
 	localRevID := localDoc.GetRevTreeID()
-	tombstoneRevID, tombstoneErr := db.tombstoneActiveRevision(ctx, localDoc, localRevID)
-	if tombstoneErr != nil {
-		return nil, tombstoneErr
+	tombstoneRevID := localRevID
+	if remoteDoc.RevID != localRevID {
+		var tombstoneErr error
+		tombstoneRevID, tombstoneErr = db.tombstoneActiveRevision(ctx, localDoc, localRevID)
+		if tombstoneErr != nil {
+			return nil, tombstoneErr
+		}
 	}
 	remoteRevID := remoteDoc.RevID
 
